@@ -141,12 +141,13 @@ def make_context(check: Check, repo: Repo = None) -> Context:
     return ctx
 
 
-# ---- job-based parallel exploration: one job = (canary index | None, contract index | 'lemmas') ----
+# ---- path-task scheduler: one pool of forked workers explores decision subtrees of all contracts ----
 _JOB_CHECK = None
 _JOB_KNOWN = None
 _JOB_TIMEOUT = 30000
 _JOB_ROOT = "/repo"
 _JOB_CANARIES = []
+_REPO_CACHE: Dict[Any, Any] = {}
 
 
 @dataclass
@@ -163,50 +164,71 @@ class VerdictRec:
     meta: dict = field(default_factory=dict)
 
 
-def _run_job(job):
-    ci, ki = job
-    check = _JOB_CHECK
-    try:
+def _repo_for(ci):
+    if ci not in _REPO_CACHE:
         if ci is None:
-            repo = Repo(_JOB_ROOT)
+            _REPO_CACHE[ci] = Repo(_JOB_ROOT)
         else:
-            repo = apply_canary(_JOB_ROOT, _JOB_CANARIES[ci])
-            if repo is None:
-                return dict(job=job, skipped=True)
+            _REPO_CACHE[ci] = apply_canary(_JOB_ROOT, _JOB_CANARIES[ci])
+    r = _REPO_CACHE[ci]
+    return r
+
+
+def _recs_of(verdicts):
+    recs = []
+    for ob, v, sec, m, why in verdicts:
+        explained = False
+        if v == "sat" and _JOB_KNOWN:
+            ks = [k for k in _JOB_KNOWN if k["obligation"] == ob.name]
+            if ks:
+                explained = _explained_by_known(ob, ks, _JOB_TIMEOUT)
+        lite = {k: v2 for k, v2 in (ob.meta or {}).items() if isinstance(v2, (str, int, float, bool))}
+        recs.append(VerdictRec(ob.name, v, sec, m, why, ob.func, ob.line, tuple(ob.trace), explained, lite))
+    return recs
+
+
+def _run_task(task):
+    """task = dict(ci, ki, prefixes, loop_writes, budget)"""
+    ci, ki = task["ci"], task["ki"]
+    check = _JOB_CHECK
+    from .verify import run_paths
+    try:
+        repo = _repo_for(ci)
+        if repo is None:
+            return dict(ci=ci, ki=ki, skipped=True)
         ctx = make_context(check, repo)
-        fr = None
-        obls: List[Obligation] = []
         if ki == "lemmas":
+            obls = []
             for lem in check.lemmas():
                 assumptions, goal = lem.build()
                 obls.append(Obligation(lem.name, tuple(assumptions), goal, "<lemma>", 0, 0,
                                        {"watch": lem.watch, "lemma": True}))
-        else:
-            c = check.contracts()[ki]
-            fr = explore(ctx, c, getattr(c, "runner", None))
-            obls = fr.obligations
+            return dict(ci=ci, ki=ki, remaining=[], recs=_recs_of(discharge(obls, timeout_ms=_JOB_TIMEOUT, procs=1)),
+                        outcomes={}, unsupported=[], errors=[], loop_writes={}, changed=False, paths=0,
+                        dropped=[], stats={}, assumptions=[], meta=None)
+        c = check.contracts()[ki]
+        try:
+            fi = ctx.repo.function(c.key)
+        except Unsupported as u:
+            return dict(ci=ci, ki=ki, remaining=[], recs=[], outcomes={}, unsupported=[str(u)], errors=[],
+                        loop_writes={}, changed=False, paths=0, dropped=[], stats={}, assumptions=[], meta=None)
+        ctx.loop_writes = {k: set(v) for k, v in task["loop_writes"].items()}
+        ctx.loop_writes_changed = False
+        remaining, obls, outcomes, unsupported, errors, done = run_paths(ctx, c, fi, task["prefixes"],
+                                                                         task["budget"])
         if ci is None:
             verdicts = discharge(obls, timeout_ms=_JOB_TIMEOUT, procs=1)
         else:
-            # a canary only has to make ONE obligation fail: expected ones first, stop at the first hit
             exp = _JOB_CANARIES[ci].expect
             obls = sorted(obls, key=lambda o: (exp not in o.name, o.name))
-            verdicts = discharge(obls, timeout_ms=min(_JOB_TIMEOUT, 10000), procs=1, stop_at_sat=True)
-        recs = []
-        for ob, v, sec, m, why in verdicts:
-            explained = False
-            if v == "sat" and _JOB_KNOWN:
-                ks = [k for k in _JOB_KNOWN if k["obligation"] == ob.name]
-                if ks:
-                    explained = _explained_by_known(ob, ks, _JOB_TIMEOUT)
-            lite = {k: v2 for k, v2 in (ob.meta or {}).items() if isinstance(v2, (str, int, float, bool))}
-            recs.append(VerdictRec(ob.name, v, sec, m, why, ob.func, ob.line, tuple(ob.trace), explained, lite))
-        if fr is not None:
-            fr.obligations = []
-        return dict(job=job, fr=fr, recs=recs, dropped=sorted(ctx.dropped), stats=ctx.stats,
-                    assumptions=sorted(ctx.assumptions))
+            verdicts = discharge(obls, timeout_ms=min(_JOB_TIMEOUT, 12000), procs=1, stop_at_sat=True)
+        meta = dict(function=c.key, lines=list(fi.span()), source_sha=fi.source_hash(), file=fi.module.relpath)
+        return dict(ci=ci, ki=ki, remaining=remaining, recs=_recs_of(verdicts), outcomes=outcomes,
+                    unsupported=unsupported, errors=errors, loop_writes=ctx.loop_writes,
+                    changed=ctx.loop_writes_changed, paths=done, dropped=sorted(ctx.dropped), stats=ctx.stats,
+                    assumptions=sorted(ctx.assumptions), meta=meta)
     except Exception as ex:
-        return dict(job=job, error=f"{type(ex).__name__}: {ex}", trace=traceback.format_exc()[-3000:])
+        return dict(ci=ci, ki=ki, error=f"{type(ex).__name__}: {ex}", trace=traceback.format_exc()[-3000:])
 
 
 def _explained_by_known(ob, ks, timeout_ms) -> bool:
@@ -225,17 +247,149 @@ def _explained_by_known(ob, ks, timeout_ms) -> bool:
     return s.check() == z3.unsat
 
 
+class _State:
+    """Exploration state of one (canary, contract) pair in the parent."""
+
+    def __init__(self, ci, ki):
+        self.ci, self.ki = ci, ki
+        self.loop_writes: Dict[Any, set] = {}
+        self.queue: List[Tuple] = [()]
+        self.inflight = 0
+        self.round = 1
+        self.dirty = False
+        self.recs: List[VerdictRec] = []
+        self.outcomes: Dict[str, int] = {}
+        self.unsupported: List[str] = []
+        self.errors: List[str] = []
+        self.paths = 0
+        self.dropped: set = set()
+        self.assumptions: set = set()
+        self.stats: Dict[str, int] = {}
+        self.meta = None
+        self.skipped = False
+        self.stopped = False
+        self.t0 = time.time()
+        self.t1 = None
+        self.first = True
+
+    def reset_round(self):
+        self.queue = [()]
+        self.recs, self.outcomes, self.unsupported, self.paths = [], {}, [], 0
+        self.dirty = False
+        self.round += 1
+        self.first = True
+
+    @property
+    def done(self):
+        return self.inflight == 0 and (not self.queue or self.stopped)
+
+
 def run_jobs(check: Check, jobs, repo_root, known, timeout_ms, canaries):
+    """jobs: list of (ci, ki).  Returns {(ci, ki): _State}."""
     global _JOB_CHECK, _JOB_KNOWN, _JOB_TIMEOUT, _JOB_ROOT, _JOB_CANARIES
     _JOB_CHECK, _JOB_KNOWN, _JOB_TIMEOUT, _JOB_ROOT, _JOB_CANARIES = check, known, timeout_ms, repo_root, canaries
+    _REPO_CACHE.clear()
+    states = {j: _State(*j) for j in jobs}
     if not jobs:
-        return []
-    procs = min(int(os.environ.get("VERIF_PROCS", "16")), len(jobs))
-    if procs <= 1:
-        return [_run_job(j) for j in jobs]
+        return states
+    procs = max(1, int(os.environ.get("VERIF_PROCS", "16")))
+    max_paths = int(os.environ.get("VERIF_MAX_PATHS", "6000"))
+
+    def next_task(st: _State):
+        if st.stopped or not st.queue or st.dirty:
+            return None
+        n = 1 if st.first else min(len(st.queue), 3)
+        st.first = False
+        prefixes = [st.queue.pop() for _ in range(n)]
+        return dict(ci=st.ci, ki=st.ki, prefixes=prefixes, loop_writes=st.loop_writes,
+                    budget=2 if st.paths < 8 else 8)
+
+    def absorb(st: _State, r):
+        st.inflight -= 1
+        if r.get("skipped"):
+            st.skipped, st.stopped = True, True
+            return
+        if "error" in r:
+            st.errors.append(f"{r['error']}\n{r.get('trace', '')}")
+            st.stopped = True
+            return
+        st.meta = r.get("meta") or st.meta
+        new_writes = False
+        for k, v in r["loop_writes"].items():
+            cur = st.loop_writes.setdefault(k, set())
+            if not set(v) <= cur:
+                cur |= set(v)
+                new_writes = True
+        if new_writes:
+            st.dirty = True
+        st.queue.extend(r["remaining"])
+        st.recs.extend(r["recs"])
+        for k, v in r["outcomes"].items():
+            st.outcomes[k] = st.outcomes.get(k, 0) + v
+        st.unsupported.extend(r["unsupported"])
+        st.errors.extend(r["errors"])
+        st.paths += r["paths"]
+        st.dropped.update(r["dropped"])
+        st.assumptions.update(r["assumptions"])
+        for k, v in r["stats"].items():
+            st.stats[k] = st.stats.get(k, 0) + v
+        if st.paths > max_paths:
+            st.unsupported.append(f"path budget exceeded ({max_paths})")
+            st.stopped = True
+        if st.ci is not None and not st.dirty and \
+                any(x.verdict == "sat" and not x.known_explained for x in r["recs"]):
+            st.stopped = True                     # a canary only needs one failing obligation
+        if st.dirty and st.inflight == 0:
+            if st.round >= 8:
+                st.unsupported.append("loop write-set inference did not converge")
+                st.stopped = True
+            else:
+                st.reset_round()
+
+    if procs == 1:
+        for st in states.values():
+            while not st.done:
+                t = next_task(st)
+                if t is None:
+                    break
+                st.inflight += 1
+                absorb(st, _run_task(t))
+            st.t1 = time.time()
+        return states
+    from concurrent.futures import ProcessPoolExecutor, wait, FIRST_COMPLETED
     import multiprocessing as mp
-    with mp.get_context("fork").Pool(procs) as pool:
-        return pool.map(_run_job, jobs, chunksize=1)
+    with ProcessPoolExecutor(max_workers=procs, mp_context=mp.get_context("fork")) as ex:
+        futs = {}
+        order = list(states.values())
+        while True:
+            # fill the pool (base jobs first, round-robin over states)
+            progressed = True
+            while len(futs) < procs * 2 and progressed:
+                progressed = False
+                for st in order:
+                    if len(futs) >= procs * 2:
+                        break
+                    t = next_task(st)
+                    if t is not None:
+                        st.inflight += 1
+                        futs[ex.submit(_run_task, t)] = st
+                        progressed = True
+            if not futs:
+                break
+            done, _ = wait(list(futs), return_when=FIRST_COMPLETED)
+            for f in done:
+                st = futs.pop(f)
+                try:
+                    r = f.result()
+                except Exception as exn:
+                    r = dict(ci=st.ci, ki=st.ki, error=f"worker died: {type(exn).__name__}: {exn}")
+                absorb(st, r)
+                if st.done and st.t1 is None:
+                    st.t1 = time.time()
+    for st in states.values():
+        if st.t1 is None:
+            st.t1 = time.time()
+    return states
 
 
 def summarise(recs: List[VerdictRec]):
@@ -255,6 +409,8 @@ def summarise(recs: List[VerdictRec]):
                 d["explained"] += 1
         if v not in ("unsat", "sat"):
             d["why"].append(r.why)
+            if r.model:
+                d.setdefault("candidates", []).append((r.model, r))
     return by
 
 
@@ -296,7 +452,7 @@ def run_check(check: Check, tier: str = "quick", seed: int = 0) -> int:
             elif ct.key.split("::")[0] == c.relpath or ct.key in (c.also or ()) or c.all_contracts:
                 canary_jobs.append((ci, k))
     try:
-        results = run_jobs(check, base_jobs + canary_jobs, repo_root, known, timeout_ms, canaries)
+        states = run_jobs(check, base_jobs + canary_jobs, repo_root, known, timeout_ms, canaries)
     except Exception as ex:        # engine crash: never a violation
         print(f"CHECKER-ERROR property={prop} {type(ex).__name__}: {ex}")
         traceback.print_exc()
@@ -304,22 +460,28 @@ def run_check(check: Check, tier: str = "quick", seed: int = 0) -> int:
                                                    checker_cmd=f"./vcheck check {prop} --tier {tier}",
                                                    trusted_base=GLOBAL_TRUSTED, samples=[]), violations=0)
         return 3
-    base = [r for r in results if r["job"][0] is None]
     fresults: List[FunctionResult] = []
+    frs_by_idx: Dict[Any, FunctionResult] = {}
     recs: List[VerdictRec] = []
     dropped, stats, ctx_assumptions = set(), {}, set()
     undecided: List[str] = []
-    for r in base:
-        if "error" in r:
-            errors.append(f"engine error in job {r['job']}: {r['error']}\n{r.get('trace', '')}")
+    for (ci, ki), st in states.items():
+        if ci is not None:
             continue
-        if r.get("fr") is not None:
-            fresults.append(r["fr"])
-        recs.extend(r["recs"])
-        dropped.update(r["dropped"])
-        ctx_assumptions.update(r.get("assumptions", []))
-        for k, v in r["stats"].items():
+        for e in st.errors:
+            errors.append(f"engine error in {ki}: {e}")
+        recs.extend(st.recs)
+        dropped.update(st.dropped)
+        ctx_assumptions.update(st.assumptions)
+        for k, v in st.stats.items():
             stats[k] = stats.get(k, 0) + v
+        if ki != "lemmas":
+            m = st.meta or {}
+            fr = FunctionResult(contracts[ki].key, [], st.paths, st.round, list(dict.fromkeys(st.unsupported)),
+                                st.outcomes, (st.t1 or time.time()) - st.t0, tuple(m.get("lines", (0, 0))),
+                                m.get("source_sha", ""), m.get("file", ""), [])
+            fresults.append(fr)
+            frs_by_idx[ki] = fr
     by = summarise(recs)
     violations: List[dict] = []
     known_hits: List[str] = []
@@ -341,7 +503,6 @@ def run_check(check: Check, tier: str = "quick", seed: int = 0) -> int:
     # vacuity (A1)
     if len(by) == 0:
         errors.append("vacuous: no obligations were generated")
-    frs_by_idx = {r["job"][1]: r.get("fr") for r in base if r.get("fr") is not None}
     for k, c in enumerate(contracts):
         fr = frs_by_idx.get(k)
         if fr is None or fr.unsupported:
@@ -354,7 +515,22 @@ def run_check(check: Check, tier: str = "quick", seed: int = 0) -> int:
     os.makedirs(os.path.join(VERIF, "replays", prop), exist_ok=True)
     for name, d in sorted(by.items()):
         if d["unknown"] and not d["sat"]:
-            undecided.append(f"{name}: solver returned unknown ({'; '.join(sorted(set(d['why'])))})")
+            # inconclusive on the full path condition; a counter-model of the quantifier-free part is only a
+            # candidate: it becomes a violation iff it replays on the real code
+            confirmed = None
+            for m2, r2 in d.get("candidates", [])[:6]:
+                try:
+                    cand = check.replay(name, m2 or {}, r2)
+                except Exception:
+                    cand = None
+                if cand and cand.get("reproduced"):
+                    confirmed = (cand, m2, r2)
+                    break
+            if confirmed is None:
+                undecided.append(f"{name}: solver returned unknown ({'; '.join(sorted(set(d['why'])))})")
+                continue
+            d["sat"] = 1
+            d["models"], d["recs"] = [confirmed[1]], [confirmed[2]]
         if not d["sat"]:
             continue
         ks = [k for k in known if k["obligation"] == name]
@@ -390,14 +566,14 @@ def run_check(check: Check, tier: str = "quick", seed: int = 0) -> int:
     # canaries (A3): each rewrite of the current source must make an obligation fail
     canary_report = []
     for ci, c in enumerate(canaries):
-        rs = [r for r in results if r["job"][0] == ci]
-        if not rs or all(r.get("skipped") for r in rs):
+        sts = [st for (cj, _k), st in states.items() if cj == ci]
+        if not sts or all(st.skipped for st in sts):
             canary_report.append(dict(name=c.name, status="skipped (anchor not found in current source)"))
             continue
-        errs = [r["error"] for r in rs if "error" in r]
+        errs = [e for st in sts for e in st.errors]
         failed = []
-        for r in rs:
-            for rec in r.get("recs", []):
+        for st in sts:
+            for rec in st.recs:
                 if rec.verdict == "sat" and not rec.known_explained:
                     failed.append(rec.name)
         try:
@@ -408,17 +584,29 @@ def run_check(check: Check, tier: str = "quick", seed: int = 0) -> int:
                         failed.append(n)
         except Unsupported:
             pass
+        if os.environ.get("PYVC_DEBUG"):
+            for st in sts:
+                cnt = {}
+                for rec in st.recs:
+                    cnt[(rec.name.split(".")[-1], rec.verdict)] = cnt.get((rec.name.split(".")[-1], rec.verdict), 0) + 1
+                print(f"[canary {c.name}] state {st.ki} paths={st.paths} round={st.round} stopped={st.stopped} "
+                      f"queue={len(st.queue)} unsupported={st.unsupported[:2]} recs={cnt}", flush=True)
         hit = sorted({n for n in failed if c.expect in n})
         if hit:
             canary_report.append(dict(name=c.name, status="killed", by=hit[:4]))
         elif failed:
             canary_report.append(dict(name=c.name, status="killed-by-other", by=sorted(set(failed))[:4]))
         elif errs:
-            canary_report.append(dict(name=c.name, status=f"error: {errs[0]}"))
-            errors.append(f"canary '{c.name}' crashed the engine: {errs[0]}")
+            canary_report.append(dict(name=c.name, status=f"error: {errs[0][:300]}"))
+            errors.append(f"canary '{c.name}' crashed the engine: {errs[0][:600]}")
         else:
-            uns = [u for r in rs if r.get("fr") is not None for u in r["fr"].unsupported]
-            if uns:
+            unknowns = sorted({rec.name for st in sts for rec in st.recs if rec.verdict not in ("sat", "unsat")})
+            uns = [u for st in sts for u in st.unsupported]
+            if unknowns:
+                canary_report.append(dict(name=c.name, status="not-proved (solver inconclusive; the real check would "
+                                                              "report UNDECIDED unless a candidate replays)",
+                                          by=unknowns[:4]))
+            elif uns:
                 canary_report.append(dict(name=c.name, status=f"undecided: {uns[0]}"))
                 if not violations:
                     errors.append(f"canary '{c.name}' left the supported subset instead of failing: {uns[0]}")
